@@ -342,6 +342,9 @@ def apiOp (s : FSt) (cmd : String) : FSt :=
     | .notStarted => pollBuild s {}
     | _ => { s with unsupported := true }
   else if (buildRunning s).isSome then { s with mailbox := s.mailbox ++ [cmd] }
+  else if c == "D" && !isBuilt s then
+    -- dropped before it was built: the task answers and ends (`.failed` = nobody answers any more)
+    { (s.say s!"{s.taskName}.D=ok") with bp := .failed }
   else if !isBuilt s then { s with unsupported := true }
   else if s.rc.server && s.inflight then { s with mailbox := s.mailbox ++ [cmd] }
   else if (s.rc.server && c == "A") || (!s.rc.server && c == "W") then
@@ -354,6 +357,13 @@ def apiOp (s : FSt) (cmd : String) : FSt :=
       -- client: `select(wait_idle, next command)`: the driver future is dropped and started again
       pollIfInflight s2
     | (s1, none) => s1
+  else if c == "D" then
+    -- the application drops the driver (a client's `wait_idle` future with it): the server's `Drop`
+    -- calls `close(H3_NO_ERROR)` whatever happened before (`Setup.dropConn`, reading R-05); the task
+    -- has ended, nobody answers later commands
+    let s1 := s.say s!"{s.taskName}.D=ok"
+    let s2 := s1.setDrv (dropConn s.rc.server s1.drv)
+    { s2 with bp := .failed, inflight := false }
   else { s with unsupported := true }
 
 /-- the task takes the commands that were posted while it was busy -/
